@@ -186,25 +186,29 @@ Unit(p, j)          == [q \in 1..p |-> IF q = j THEN 1 ELSE 0]
 Pair(p, j, l, s, t) == [q \in 1..p |-> IF q = j THEN s ELSE IF q = l THEN t ELSE 0]
 LatU(p) ==
   IF p <= 3
-    THEN {u \in [1..p -> -2..2] : \E j \in 1..p : u[j] > 0 /\ \A q \in 1..(j - 1) : u[q] = 0}
+    THEN {u \in [1..p -> -1..1] : \E j \in 1..p : u[j] > 0 /\ \A q \in 1..(j - 1) : u[q] = 0}
     ELSE {Unit(p, j) : j \in 1..p} \cup
-         {u \in {Pair(p, jl[1], jl[2], st2[1], st2[2]) : jl \in (1..p) \X (1..p), st2 \in {1, 2} \X {-2, -1, 1, 2}} :
-             \E j \in 1..p, l \in 1..p : j < l /\ u[j] > 0 /\ u[l] # 0}
+         {Pair(p, jl[1], jl[2], 1, t) : jl \in {x \in (1..p) \X (1..p) : x[1] < x[2]}, t \in {-1, 1}}
 QuadM(D, u) == SumSeq([j \in 1..D.p |-> u[j] * SumSeq([l \in 1..D.p |-> D.M[j][l] * u[l]])])
 
-LatOk(D, k, g, f, nv, eq) ==
-  LET h   == 100 \div g
-      ns  == [i \in 1..k |-> SMD(D.n * h, S2(f, i), S)]           \* n sigma_i^2 at scale h
+\* everything is normalised by tr(M) so that all products stay small:
+\*   u^T (M/tr) u - sum_i (n sigma_i^2/tr) (v_i.u)^2  <=  (n sigma_k^2/tr) u.u   (+ slack), at scale S
+LatOk(D, k, f, nv, eq) ==
+  LET T   == D.tr
+      an  == [i \in 1..k |-> SMD(S2(f, i), D.n, T)]                              \* n sigma_i^2 / tr at scale S
+      \* deflated matrix (M - sum_i n sigma_i^2 v_i v_i^T) / tr at scale S, once per fit
+      Df  == [j \in 1..D.p |-> [l \in 1..D.p |->
+                SMD(D.M[j][l], S, T) - SumSeq([i \in 1..k |-> (an[i] * ((nv[i][j] * nv[i][l]) \div S)) \div S])]]
       eqm == MaxOf(eq)
   IN \A u \in LatU(D.p) :
-       LET uu == Dot(u, u)
-           u1 == AbsSum(u)
-           dd == [i \in 1..k |-> LET du == Dot(nv[i], u) IN SMD(du, du, S)]     \* (v_i.u)^2 at scale S
-           \* u^T (M - sum_i n sigma_i^2 v_i v_i^T) u  at scale h
-           lhs == QuadM(D, u) * h - SumSeq([i \in 1..k |-> SMD(ns[i], dd[i], S)])
-       IN lhs <= ns[k] * uu
-                 + h * ((D.tr * uu) \div 1000 + (D.tr * u1 * u1 * eqm) \div 5000 + (k * D.tr) \div 10000 + 2)
-                 + 2 * k + uu * D.n
+       LET uu  == Dot(u, u)
+           u1  == AbsSum(u)
+           lhs == SumSeq([j \in 1..D.p |-> u[j] * Dot(Df[j], u)])
+       IN lhs <= an[k] * uu
+                 + (S * uu) \div 1000            \* numerical allowance 10^-3 tr |u|^2
+                 + (S * u1 * u1 * eqm) \div 5000 \* quantisation of the components
+                 + 10 * uu                       \* quantisation of sigma_i^2 (sigma >= 1/2)
+                 + (2 * k + 1) * u1 * u1 + k * uu + 2   \* truncations
 
 -----------------------------------------------------------------------------
 (* named deviations (known findings) -- each models what the defective code computes *)
@@ -236,7 +240,7 @@ FitWhy(D, k, wh, f, full, devs) ==
           ELSE IF ~ritz /\ ~EigOk(D, k, g, f, nv, eq, mvs) THEN "eigen-equation"
           ELSE IF k = D.p /\ ~TraceOk(D, g, f) THEN "trace"
           ELSE IF ~ritz /\ (k < D.p \/ wh) /\ ~LeadOk(D, k, f, full) THEN "leading-singular-values"
-          ELSE IF ~ritz /\ k < D.p /\ ~LatOk(D, k, g, f, nv, eq) THEN "rayleigh-bound"
+          ELSE IF ~ritz /\ k < D.p /\ ~LatOk(D, k, f, nv, eq) THEN "rayleigh-bound"
           ELSE IF ~(IF DevEvar \in devs THEN EvDevOk(D, k, f) ELSE EvOk(D, k, f)) THEN "explained-variance"
           ELSE IF ~(IF DevEvar \in devs THEN RatioDevOk(D, k, f) ELSE RatioOk(D, k, f)) THEN "ratio"
           ELSE "ok"
@@ -468,7 +472,7 @@ ClauseSensitive ==
         nv == NV(D, st.k, st.wh, f)
         eq == EQ(D, st.k, st.wh, f)
     IN CASE st.tag = "rot"      -> ~EigOk(D, st.k, G(D), f, nv, eq, MVs(D, st.k, G(D), nv))
-         [] st.tag = "trailing" -> ~LeadOk(D, st.k, f, FullS2(st.p, st.amp, st.ord)) /\ ~LatOk(D, st.k, G(D), f, nv, eq)
+         [] st.tag = "trailing" -> ~LeadOk(D, st.k, f, FullS2(st.p, st.amp, st.ord)) /\ ~LatOk(D, st.k, f, nv, eq)
          [] st.tag = "sig2"     -> st.k = st.p => ~TraceOk(D, G(D), f)
          [] st.tag = "scale105" -> ~OrthOk(D, st.k, nv, eq)
 
